@@ -1,6 +1,8 @@
 import PetgraphModel.Common
 import PetgraphModel.Model.Serde
+import PetgraphModel.Model.SerdeW6
 import PetgraphModel.Spec.Serde
+import PetgraphModel.Spec.SerdeW6
 import PetgraphModel.Spec.SerdeCheck
 import PetgraphModel.Spec.SerdeText
 /-
@@ -16,6 +18,16 @@ For every slot the driver keeps the mirror-model state (exact) and the abstract 
   de   <slot> <G|S|M> <d|u> <w> <fmt> ord=<fields> rt=<slot|-> n=… h=… p=… e=… [txt=<json>|hex=<bytes>]
                                                                   => ok <observation> | err … | panic
   blind <G|S|M> <d|u> <w> <fmt>                                   => err … | ok <observation> | panic
+  x    <slot> <reverse|clear|clear_edges>                         => observation afterwards
+  clone <slot> <new slot>                                         => observation of the clone
+  clonefrom <slot> <other slot>                                   => observation of <other slot> after other.clone_from(&slot)
+  law  <name> …                                                   => ok | VIOLATED <why>   (a law checked in the harness against
+                                                                     the implementation itself; anything but ok is a SPECFAIL)
+  stat                                                            => the corner inputs the case reached (statistics only)
+
+The case line carries the build profile (`profile=debug|release`): `check_free_lists` and the
+`collect_seq_with_length` assertion exist in debug builds only, so the mirror model's answer for a broken free list /
+a wrong cached count is `panic` in a debug build and `ok` / the stream as it is in a release build.
 
 Spec-level rules are the clauses of the property: serialization shows exactly the abstract graph (vacancies up to the
 bounds), a valid stream loads (capacity = the index type's maximum: D20 is the recorded exception), the loaded graph
@@ -37,10 +49,12 @@ structure Slot where
 
 structure DState where
   slots : List (Nat × Slot) := []
+  /-- the build profile of the harness that produced the case (`profile=release` on the case line) -/
+  debug : Bool := true
 
 def DState.get (d : DState) (k : Nat) : Option Slot := d.slots.lookup k
-def DState.put (d : DState) (k : Nat) (s : Slot) : DState := { slots := (k, s) :: d.slots.filter (·.1 != k) }
-def DState.drop (d : DState) (k : Nat) : DState := { slots := d.slots.filter (·.1 != k) }
+def DState.put (d : DState) (k : Nat) (s : Slot) : DState := { d with slots := (k, s) :: d.slots.filter (·.1 != k) }
+def DState.drop (d : DState) (k : Nat) : DState := { d with slots := d.slots.filter (·.1 != k) }
 
 /-! ### printing -/
 
@@ -97,6 +111,10 @@ def afterEq (tok key : String) : Option String :=
   match tok.splitOn "=" with
   | [k, v] => if k == key then some v else none
   | _ => none
+
+/-- `key=<rest>` where `<rest>` may itself contain `=` (a mutated JSON text) -/
+def afterEqFirst (tok key : String) : Option String :=
+  if tok.startsWith (key ++ "=") then some (tok.drop (key.length + 1)).toString else none
 
 def splitList (s sep : String) : List String := if s == "-" then [] else s.splitOn sep
 
@@ -173,10 +191,10 @@ def parseOrder (s : String) : List Field :=
 
 def endOf (w : String) : Nat :=
   match w with
-  | "8" => 255 | "16" => 65535 | "32" => 4294967295 | _ => 0
+  | "8" => 255 | "16" => 65535 | "32" => 4294967295 | "64" => 18446744073709551615 | _ => 0
 
 /-- bytes of an index of the type whose maximum is `END` -/
-def indexBytes (END : Nat) : Nat := if END == 255 then 1 else if END == 65535 then 2 else 4
+def indexBytes (END : Nat) : Nat := if END == 255 then 1 else if END == 65535 then 2 else if END == 4294967295 then 4 else 8
 
 def kindOf (t : String) : Kind := if t == "G" then .graph else if t == "S" then .stable else .map
 
@@ -323,7 +341,7 @@ def stepOp (d : DState) (k : Nat) (sl : Slot) (name : String) (args : List Strin
   | "check", [] =>
     -- retain_nodes / retain_edges keeping everything: runs the debug-build free-list self check
     let ms := match sl.model with
-      | .s s => (match s.checkFreeLists with | .ok _ => "ok" | .error _ => "panic")
+      | .s s => (match s.checkFreeLists with | .ok _ => "ok" | .error _ => if d.debug then "panic" else "ok")
       | .lost => "(no model state)"
       | _ => "ok"
     fin sl.model ms (if impl == "ok" then .ok sl.spec else .error "free-list self check (check_free_lists) failed")
@@ -331,7 +349,70 @@ def stepOp (d : DState) (k : Nat) (sl : Slot) (name : String) (args : List Strin
 
 def step (d : DState) (req : List String) (impl : String) : DState × String :=
   match req with
-  | "case" :: k :: _ => ({}, s!"case {k}")
+  | "case" :: k :: rest => ({ debug := !(rest.contains "profile=release") }, s!"case {k}")
+  | "law" :: _ =>
+    -- a law checked in the harness against the implementation itself (iterator laws, clone_from, Default, Debug,
+    -- IndexMut, the visit-trait views, the instantiations that are not mirrored)
+    if impl == "ok" then (d, "ok") else (d, s!"SPECFAIL law {" ".intercalate (req.drop 1 |>.take 4)}: {impl}")
+  | ["stat"] => (d, "ok")
+  | ["x", k, name] =>
+    let k := k.toNat?.getD 0
+    (match d.get k with
+    | none => (d, s!"SPECFAIL x on unknown slot {k}")
+    | some sl =>
+      if impl == "panic" then (d.put k { sl with model := .lost }, s!"SPECFAIL {name} panicked")
+      else
+      let mdl : Option MState := match name, sl.model with
+        | "reverse", .g r => some (.g r.reverse) | "reverse", .s s => some (.s s.reverse)
+        | "clear", .g r => some (.g r.clear) | "clear", .s s => some (.s s.clear) | "clear", .m m => some (.m m.clear)
+        | "clear_edges", .g r => some (.g r.clearEdges) | "clear_edges", .s s => some (.s s.clearEdges)
+        | _, .lost => some .lost
+        | _, _ => none
+      let spc : Option AGraph := match name with
+        | "reverse" => if sl.spec.kind == .map then none else some (specReverse sl.spec)
+        | "clear" => some (specClear sl.spec)
+        | "clear_edges" => if sl.spec.kind == .map then none else some (specClearEdges sl.spec)
+        | _ => none
+      -- run-time check of the hypothesis of `C17_reverse_inv_*` / `C17_clear_edges_inv_*` / `C17_reverse_view_*`: the
+      -- state the operation is applied to satisfies the structural invariant (`C17_stableInv_check`, `C17_graphInv_check`)
+      let side : Option String := match sl.model with
+        | .g r => if graphInvB r then none else some "GraphInv (the Graph the operation is applied to)"
+        | .s s => if stableInvB s then none else some "StableInv (the StableGraph the operation is applied to)"
+        | .m m => if mapWfB m then none else some "GraphMap well-formedness (the map the operation is applied to)"
+        | .lost => none
+      match side with
+      | some what => (d, s!"SPECFAIL side condition {what} does not hold on the mirror state")
+      | none =>
+      match mdl, spc with
+      | some m', some a =>
+        -- an undirected graph reversed is the same graph: either orientation of its edges is accepted
+        let j := match judgeDump a (splitWords impl) with
+          | .ok a' => Except.ok a'
+          | .error why => if name == "reverse" && !sl.spec.directed then judgeDump sl.spec (splitWords impl) else .error why
+        (match j with
+        | .error why => (d.put k { sl with model := m' }, s!"SPECFAIL after {name}: {why}")
+        | .ok a' => (d.put k { model := m', spec := a' }, cmpExact (showModelDump m') impl))
+      | _, _ => (d, s!"SPECFAIL bad request x {name}"))
+  | ["clone", k, j] =>
+    let k := k.toNat?.getD 0
+    let j := j.toNat?.getD 0
+    (match d.get k with
+    | none => (d, s!"SPECFAIL clone of unknown slot {k}")
+    | some sl =>
+      if impl == "panic" then (d, "SPECFAIL clone panicked")
+      else match judgeDump sl.spec (splitWords impl) with
+        | .error why => (d, s!"SPECFAIL the clone is not the graph that was cloned: {why}")
+        | .ok a => (d.put j { model := sl.model, spec := a }, cmpExact (showModelDump sl.model) impl))
+  | ["clonefrom", k, j] =>
+    let k := k.toNat?.getD 0
+    let j := j.toNat?.getD 0
+    (match d.get k with
+    | none => (d, s!"SPECFAIL clone_from of unknown slot {k}")
+    | some sl =>
+      if impl == "panic" then ((d.drop j), "SPECFAIL clone_from panicked")
+      else match judgeDump sl.spec (splitWords impl) with
+        | .error why => ((d.drop j), s!"SPECFAIL after clone_from the target is not the graph that was cloned: {why}")
+        | .ok a => (d.put j { model := sl.model, spec := a }, cmpExact (showModelDump sl.model) impl))
   | ["new", k, t, dir, w] =>
     let k := k.toNat?.getD 0
     let END := if t == "M" then 4294967295 else endOf w
@@ -400,7 +481,7 @@ def step (d : DState) (req : List String) (impl : String) : DState × String :=
         | _, _ => .error s!"serialization failed: {impl}"
       let ms := match mw with
         | none => "(no model state)"
-        | some none => "panic"
+        | some none => if d.debug then "panic" else "(a stream whose announced lengths are wrong)"
         | some (some w) =>
           if fmt == "js" then "ok " ++ printWireS w
           else if fmt == "bin" then "ok " ++ showHex (binWire iw w)
@@ -442,7 +523,7 @@ def step (d : DState) (req : List String) (impl : String) : DState × String :=
       let iw := if kind == .map then 4 else indexBytes END
       let transport : Option String := match fmt, src with
         | "js", [tok] =>
-          (match afterEq tok "txt" with
+          (match afterEqFirst tok "txt" with
           | some text =>
             (match parseWireS text with
             | some w' => if w' == wire then none else some "the JSON text fed does not denote the stated wire value"
